@@ -99,7 +99,8 @@ def base_lib(language, r):
         decls.append({"decl": "void qfun5(const std::string & s)"})
         decls.append({"decl": "class Qcls", "declarations": [
             {"decl": "Qcls()"}, {"decl": "~Qcls()"}, {"decl": "int qmeth0(int a)"}, {"decl": "void qmeth1(double x)"},
-            {"decl": "enum Qshade { QLIGHT, QDARK = 5 };"}]})
+            {"decl": "enum Qshade { QLIGHT, QDARK = 5 };"},
+            {"decl": "Qcls * qchain(int a)", "return_this": True}]})
         decls.append({"decl": "namespace qns", "declarations": [
             {"decl": "int qfun6(int a)"},
             {"decl": "namespace qmid", "declarations": [{"decl": "namespace qdeep", "declarations": [{"decl": "int qfun7(int a)"}]}]}]})
@@ -274,6 +275,21 @@ def run(ctx):
                 check_config(ctx, res, lname)
                 n += 1
             ctx.sample({"library": lname, "flags": [1, 1, 1, 1], "listing": results[(1, 1, 1, 1)]["list"]}, cap=3)
+            if lname == "cxx":
+                # everything switched on: every declaration of the fixed library that the language can wrap is there
+                allon = results[(1, 1, 1, 1)]
+                if allon["exc"] is None:
+                    for kind, names in (("c", ("qfun0", "qfun1", "qfun2", "qfun5", "qmeth0", "qmeth1", "qchain", "qfun6", "qfun7", "qover", "qloud", "qdark")),
+                                        ("fortran", ("qfun0", "qfun1", "qfun2", "qfun5", "qmeth0", "qmeth1", "qchain", "qfun6", "qfun7", "qover", "qloud", "qcls_qdark")),
+                                        ("python", ("qfun0", "qfun1", "qfun2", "qfun5", "qmeth0", "qmeth1", "qchain", "qfun6", "qfun7", "qover", "qloud", "qdark")),
+                                        ("lua", ("qfun0", "qfun1", "qfun2", "qfun5", "qmeth0", "qmeth1", "qchain", "qfun6", "qfun7", "qover"))):
+                        txt = text_of(allon, kind)
+                        for nm in names:
+                            ctx.count(1)
+                            if not re.search(PRESENT[kind] % nm, txt):
+                                ctx.fail("c15:declaration-on-but-absent:%s:%s" % (kind, nm),
+                                         "all four wrappers are on for the whole library but %s does not appear in the %s output" % (nm, kind),
+                                         {"yaml": allon["yaml"], "flags": [1, 1, 1, 1]})
             # other assignments of the output-directory options
             for dm in ("outdir-only", "python-only", "cf-lua"):
                 for f in (combos if thorough else [(1, 1, 1, 1), (1, 0, 0, 1), (0, 0, 1, 1)]):
@@ -383,11 +399,7 @@ def run(ctx):
                             ctx.fail("c15:exception:%s" % type(res["exc"]).__name__, "override run failed: %r" % (res["exc"],),
                                      {"yaml": res["yaml"]})
                             continue
-                        if fname == "qcls" and kind == "c":
-                            # the C types header declares the capsule struct of every class (arguments of other
-                            # functions may need it); what is switched off is the class's wrapper functions
-                            fname_k = "qmeth0"
-                        elif fname == "qdark" and kind == "fortran":
+                        if fname == "qdark" and kind == "fortran":
                             fname_k = "qcls_qdark"          # Fortran prefixes the members of a class's enumeration
                         else:
                             fname_k = fname
@@ -395,6 +407,11 @@ def run(ctx):
                         if re.search(PRESENT[kind] % fname_k, txt):
                             ctx.fail("c15:declaration-off-but-present:%s:%s" % (kind, fname),
                                      "%s has %s: false but appears in the %s output" % (fname, optn[kind], kind), {"yaml": res["yaml"]})
+                        if fname == "qfun6":
+                            own = [n for dk, n in kind_files(res)[kind] if "_qns" in n]
+                            if own:
+                                ctx.fail("c15:file-for-off-namespace:%s" % kind,
+                                         "namespace qns has %s: false but gets %s files of its own: %s" % (optn[kind], kind, own[:4]), {"yaml": res["yaml"]})
                         others = [t for _, t in targets if t != fname and not t.startswith("qmeth") and t != "qcls"
                                   and t not in inside.get(fname, ()) and kind in only_kinds.get(t, KINDS)
                                   and not (t == "qdark" and fname != "qcls")]
